@@ -100,8 +100,14 @@ def world2pixel_single_axis(wcs, *world, pixel_axis=None):
     world_new = []
 
     # Now find all the world coordinates that are needed to calculate this
-    # world coordinate, using the axis correlation matrix
-    world_dep = wcs.axis_correlation_matrix[:, pixel_axis]
+    # pixel coordinate, using the axis correlation matrix. Since the matrix
+    # describes which pixel coordinates each world coordinate depends on, and
+    # not the reverse, we need all the world coordinates that are coupled,
+    # directly or not, to this pixel coordinate.
+    matrix = wcs.axis_correlation_matrix
+    pixel_dep = np.zeros(matrix.shape[1], dtype=bool)
+    pixel_dep[pixel_axis] = True
+    world_dep = _coupled_axes(matrix, pixel_dep, np.zeros(matrix.shape[0], dtype=bool))[1]
 
     for iw, w in enumerate(world):
         if world_dep[iw]:
@@ -171,8 +177,36 @@ def dependent_axes(wcs, axis):
     if isinstance(wcs, LegacyCoordinates):
         return (axis,)
     matrix = wcs.axis_correlation_matrix[::-1, ::-1]
-    world_dep = matrix[:, axis:axis + 1]
-    return tuple(np.nonzero((world_dep & matrix).any(axis=0))[0])
+    n_world, n_pixel = matrix.shape
+    # The axis can be the index of a pixel or of a world axis, and the
+    # dependence of world on pixel axes does not need to be symmetric (e.g.
+    # for permuted or sheared axes), so we collect all the pixel and world
+    # axes that are coupled, directly or not, to either of them.
+    pixel = np.zeros(n_pixel, dtype=bool)
+    world = np.zeros(n_world, dtype=bool)
+    if axis < n_pixel:
+        pixel[axis] = True
+    if axis < n_world:
+        world[axis] = True
+    pixel, world = _coupled_axes(matrix, pixel, world)
+    dependent = np.zeros(max(n_pixel, n_world), dtype=bool)
+    dependent[:n_pixel] |= pixel
+    dependent[:n_world] |= world
+    return tuple(np.nonzero(dependent)[0])
+
+
+def _coupled_axes(matrix, pixel, world):
+    """
+    Given a correlation matrix (world axes along rows, pixel axes along
+    columns) and boolean masks of pixel and world axes, return the masks of all
+    the pixel and world axes that are coupled, directly or indirectly, to them.
+    """
+    while True:
+        new_world = world | matrix[:, pixel].any(axis=1)
+        new_pixel = pixel | matrix[new_world, :].any(axis=0)
+        if np.array_equal(new_world, world) and np.array_equal(new_pixel, pixel):
+            return pixel, world
+        pixel, world = new_pixel, new_world
 
 
 def _get_ndim(header):
